@@ -76,6 +76,28 @@ func isContextPtr(t types.Type) bool { return isPointer(t) && typeIs(t, apdPath,
 func (w *World) roles(f *ssa.Function) []Role {
 	name := w.shortName(f)
 	out := make([]Role, len(f.Params))
+	// Unexported helpers have no API convention to honour: a parameter they write is an output, one
+	// they only read an operand. (A helper that wrongly writes something it is handed shows up at the
+	// exported caller, whose roles are fixed by the API: the caller then hands an operand to a writer.)
+	if (f.Object() == nil || !f.Object().Exported()) && outParams[name] == nil && firstDecimalIsOperand[name] == "" &&
+		decimalMutators[f.Name()] == "" && bigIntMutators[f.Name()] == "" {
+		if s, ok := w.sums[f]; ok {
+			for i, p := range f.Params {
+				t := p.Type()
+				switch {
+				case isContextPtr(t):
+					out[i] = RoleContext
+				case isDecimalPtr(t) || isBigIntPtr(t):
+					if len(s.Writes[i]) > 0 {
+						out[i] = RoleDest
+					} else {
+						out[i] = RoleOperand
+					}
+				}
+			}
+			return out
+		}
+	}
 	recv := f.Signature.Recv()
 	recvType := ""
 	if recv != nil {
